@@ -85,6 +85,11 @@ func (r *runner) execEnv(v *variant, timeout time.Duration, extraEnv []string, a
 	cmd.Stderr = &stderr
 	env := append(os.Environ(), "GOMAXPROCS=1", "GOTRACEBACK=single")
 	env = append(env, extraEnv...)
+	if strings.HasPrefix(v.Name, "inst") {
+		// the list of yield sites of this build: the generator aims explicit
+		// change points at real class-A sites
+		env = append(env, "VERIF_SITES="+filepath.Join(v.Dir, "sites.json"))
+	}
 	info := &runInfo{}
 	var raceBase string
 	if strings.Contains(v.Name, "race") {
@@ -662,12 +667,23 @@ func parseRaceLog(lg string) []raceReport {
 					continue
 				}
 				fn := m[1]
-				if strings.HasPrefix(fn, "runtime.") || strings.HasPrefix(fn, "sync.") || strings.HasPrefix(fn, "sync/atomic.") || strings.HasPrefix(fn, "reflect.") {
+				isHarness := strings.HasPrefix(fn, "vsim/") || strings.HasPrefix(fn, "main.") || strings.Contains(fn, "/verifsim.")
+				// import path = everything up to the last '/' plus the package name;
+				// a standard library package has no dot in its first path element
+				firstElem := fn
+				if i := strings.Index(firstElem, "/"); i >= 0 {
+					firstElem = firstElem[:i]
+				} else if i := strings.Index(firstElem, "."); i >= 0 {
+					firstElem = firstElem[:i]
+				}
+				if !isHarness && !strings.Contains(firstElem, ".") {
+					// a standard library frame (runtime, strconv, bytes, reflect, …):
+					// whose access it is is decided by the first frame outside of it
 					continue
 				}
-				// the innermost frame outside the runtime decides whose access it is
+				// the innermost frame outside the standard library decides whose access it is
 				top = fn
-				if strings.Contains(fn, "/verifsim.") || strings.HasPrefix(fn, "vsim/") || strings.HasPrefix(fn, "encoding/json.") {
+				if isHarness {
 					harness = true
 				}
 				break
